@@ -86,7 +86,6 @@ def base_case(draw, tier, kind, costs=COSTS):
     nmin = n_min_for(kind, ms)
     nmax = 30 if tier == "quick" else 80
     n = D.weighted(draw, [(2, st.integers(nmin, nmin + 3)), (6, st.integers(nmin, 20)), (2, st.integers(nmin, nmax))])
-    X = draw(D.any_matrix(n, p))
     k = draw(st.integers(1, 8))
     if kind == "change":
         cuts = [draw(cut3(n, ms)) for _ in range(k)]
@@ -94,8 +93,10 @@ def base_case(draw, tier, kind, costs=COSTS):
         cuts = [draw(cut4(n, ms)) for _ in range(min(k, 4))]
     else:
         cuts = draw(c01.intervals(n, ms, max_batch=8))
-    return {"cost": cost, "X": X, "cuts": cuts, "container": draw(st.sampled_from(["ndarray", "DataFrame"])),
+    case = {"cost": cost, "cuts": cuts, "container": draw(st.sampled_from(["ndarray", "DataFrame"])),
             "extra": draw(st.sampled_from([2.5, 1.0, 0.5])) if cost in ("L1Cost", "TrendL2") else None}
+    case["X"] = draw(D.any_matrix(n, p))  # bulk data last (see strategies/data.py)
+    return case
 
 
 def evaluate_or_none(scorer, cuts):
@@ -351,9 +352,10 @@ def inequality_cases(draw, tier):
     ms = cost_min_size(cost, p)
     nmax = 30 if tier == "quick" else 80
     n = D.weighted(draw, [(3, st.integers(2 * ms, 2 * ms + 6)), (5, st.integers(2 * ms, nmax))])
-    X, _ = draw(D.structured_matrix(n, p, exact=False, min_noise_scale=1e-2))
     cuts = [draw(cut3(n, ms)) for _ in range(draw(st.integers(1, 6)))]
-    return {"cost": cost, "X": X, "cuts": cuts, "param": draw(c01.fixed_param(cost, p))}
+    param = draw(c01.fixed_param(cost, p))
+    X, _ = draw(D.structured_matrix(n, p, exact=False, min_noise_scale=1e-2))  # bulk data last (see strategies/data.py)
+    return {"cost": cost, "X": X, "cuts": cuts, "param": param}
 
 
 def slice_guard(cost, X, s, e):
@@ -418,11 +420,12 @@ def check_inequalities(case):
 def refill_cases(draw, tier):
     from checks.c11 import scorer_cases
 
+    container, same_object = draw(st.sampled_from(["ndarray", "DataFrame"])), draw(st.booleans())  # before the bulk data
     case = draw(scorer_cases(tier))
     n, p = len(case["X"]), len(case["X"][0])
     case["X2"] = draw(D.exact_matrix(n, p, dyadic=False)) if case["integral"] else draw(D.generic_matrix(n, p))
-    case["container"] = draw(st.sampled_from(["ndarray", "DataFrame"]))
-    case["same_object"] = draw(st.booleans())
+    case["container"] = container
+    case["same_object"] = same_object
     return case
 
 
